@@ -236,6 +236,12 @@ class is_flag_active_visitor<Flag, flag_and>""")]),
             do_copy(rhs);""", """            Derived::operator=(rhs);
             fill_states(this);
             do_copy(rhs);""")]),
+ dict(name='fpa-mp11-cell-by-region', prop='C13', rule='C13.fpa', edits=[('include/boost/msm/backmp11/detail/favor_runtime_speed.hpp', """                const cell_t cell = cells[state_id];""", """                const cell_t cell = cells[region_id];""")]),
+ dict(name='flatfold-mp11-compare-ge', prop='C13', rule='C13.fpa', edits=[('include/boost/msm/backmp11/detail/favor_runtime_speed.hpp', """                        if (state_id == source_state_id)
+                        {
+                            if constexpr (!is_kleene_event<""", """                        if (state_id >= source_state_id)
+                        {
+                            if constexpr (!is_kleene_event<""")]),
  # ---- behaviour-preserving edits: the checks must stay silent
  dict(name='refactor-rename-local', prop='C02', refactor=True, edits=[(B, """            HandledEnum res = ROW::action_call(fsm,evt,
                              ::boost::fusion::at_key<current_state_type>(fsm.m_substate_list),
